@@ -691,3 +691,55 @@ func checkSerialised(c *Ctx, res *Resolver, impl *ssa.Function, sites []SQLSite)
 	}
 	visit(fctx{impl, mu, false}, 0)
 }
+
+// ---- the recorded position as read by latest(), whatever it is carried in ------------------
+
+// latOrigin: v as (result index of the latest() call, field path) – see retScenario.origin
+func (m *convergeModel) latOrigin(v ssa.Value) (int, []int, bool) {
+	lats := m.calls(m.latest)
+	if len(lats) != 1 {
+		return 0, nil, false
+	}
+	return (&retScenario{reg: m.reg, call: lats[0]}).origin(v)
+}
+
+// isLatNum: v is the block number of the recorded position: result #0 of latest(), or the
+// integer field of the struct it returns (position{num, hash})
+func (m *convergeModel) isLatNum(v ssa.Value) bool {
+	if v == nil || !isIntType(v.Type()) {
+		return false
+	}
+	idx, path, ok := m.latOrigin(v)
+	return ok && idx == 0 && len(path) <= 1
+}
+
+// isLatHash: v is the hash recorded with that position
+func (m *convergeModel) isLatHash(v ssa.Value) bool {
+	if v == nil {
+		return false
+	}
+	sl, isSl := v.Type().Underlying().(*types.Slice)
+	if !isSl {
+		return false
+	}
+	if b, ok := sl.Elem().Underlying().(*types.Basic); !ok || b.Kind() != types.Byte {
+		return false
+	}
+	idx, path, ok := m.latOrigin(v)
+	if !ok {
+		return false
+	}
+	return (idx == 1 && len(path) == 0) || (idx == 0 && len(path) == 1)
+}
+
+// isLatPosition: v is the whole position value returned by latest() (a struct)
+func (m *convergeModel) isLatPosition(v ssa.Value) bool {
+	if v == nil {
+		return false
+	}
+	if _, isSt := v.Type().Underlying().(*types.Struct); !isSt {
+		return false
+	}
+	idx, path, ok := m.latOrigin(v)
+	return ok && idx == 0 && len(path) == 0
+}
